@@ -403,9 +403,10 @@ def random_topological(rng, sec):
 class ProgGen(object):
     """Random well-formed programs.  Every random choice comes from self.rng."""
 
-    def __init__(self, rng, allow_rename=True, decimals=4, shuffle=True):
+    def __init__(self, rng, allow_rename=True, decimals=4, shuffle=True, explicit_gov_demand=False):
         self.rng = rng
         self.shuffle = shuffle
+        self.explicit_gov_demand = explicit_gov_demand
         self.allow_rename = allow_rename
         self.decimals = decimals
         self.n = 0
@@ -526,9 +527,10 @@ class ProgGen(object):
         # government demand (DEM_GOOD is a fixed literal name in the government classes)
         if with_gov:
             gval = _fmt(rng.uniform(5, 40), 1)
-            if nm['GOOD'] == 'GOOD':
+            as_kind = rng.choice([None, 'list', 'tuple'])
+            if nm['GOOD'] == 'GOOD' and not self.explicit_gov_demand:
                 ops.append({'kind': 'op', 'op': 'SetExogenous', 'sector': govid, 'name': 'DEM_GOOD',
-                            'value': '[%s]*40' % gval, 'as': rng.choice([None, 'list', 'tuple'])})
+                            'value': '[%s]*40' % gval, 'as': as_kind})
             else:
                 ops.append({'kind': 'op', 'op': 'AddVariable', 'sector': govid, 'name': 'DEM_' + nm['GOOD'], 'eqn': '0.0'})
                 ops.append({'kind': 'op', 'op': 'SetExogenous', 'sector': govid, 'name': 'DEM_' + nm['GOOD'],
@@ -547,9 +549,9 @@ class ProgGen(object):
         return info
 
     # -- whole programs ------------------------------------------------------------------------
-    def single(self, names=None):
+    def single(self, names=None, cid='c1', currency=None):
         steps = []
-        info = self.economy(steps, 'c1', (names or {}).get('COUNTRY', 'CA'), names=names)
+        info = self.economy(steps, cid, (names or {}).get('COUNTRY', 'CA'), names=names, currency=currency)
         steps.extend(info['ops'])
         return {'maxtime': self.rng.choice([3, 5, 8]), 'steps': steps, 'shape': 'single', 'infos': [info]}
 
@@ -635,6 +637,25 @@ class ProgGen(object):
         if r < 0.9:
             return self.multizone()
         return self.multizone(gold=True)
+
+
+def permute_declarations(rng, prog):
+    """The same program with the sector declarations of every country in another
+    dependency-respecting order (countries, external sector and user operations stay in place)."""
+    steps = prog['steps']
+    out, i = [], 0
+    while i < len(steps):
+        if steps[i]['kind'] == 'sector':
+            j = i
+            while j < len(steps) and steps[j]['kind'] == 'sector' and steps[j]['country'] == steps[i]['country']:
+                j += 1
+            out.extend(random_topological(rng, steps[i:j]))
+            i = j
+        else:
+            out.append(steps[i]); i += 1
+    q = dict(prog)
+    q['steps'] = out
+    return q
 
 
 def strip_prog(prog):
